@@ -50,11 +50,12 @@ const (
 	tplSelSend
 	tplSelSendX
 	tplGoLit
+	tplOps
 	nTpl
 )
 
-var c08TplName = []string{"pipeline", "fanout", "mutex", "prodcons", "selmain", "selpriv", "closure", "hostcall", "multi", "selsend", "selsendx", "golit"}
-var c08TplCoq = []string{"TPipeline", "TFanout", "TMutex", "TProdCons", "TSelMain", "TSelPriv", "TClosure", "THostCall", "TMulti", "TSelSend", "TSelSendX", "TGoLit"}
+var c08TplName = []string{"pipeline", "fanout", "mutex", "prodcons", "selmain", "selpriv", "closure", "hostcall", "multi", "selsend", "selsendx", "golit", "ops"}
+var c08TplCoq = []string{"TPipeline", "TFanout", "TMutex", "TProdCons", "TSelMain", "TSelPriv", "TClosure", "THostCall", "TMulti", "TSelSend", "TSelSendX", "TGoLit", "TOps"}
 
 const (
 	regionSelect   = "select-shared-cases"
@@ -64,6 +65,8 @@ const (
 
 type c08params struct {
 	Tpl, N, K, A, B, Buf int
+	Sub                  int    // tplOps: index into c08Ops (the language mechanism exercised)
+	SubName              string `json:",omitempty"`
 }
 
 func (p c08params) coq() string {
@@ -556,6 +559,8 @@ func c08source(p c08params) string {
 		return c08subst(c08HostSrc, p)
 	case tplMulti:
 		return "" // see c08multiSources
+	case tplOps:
+		return c08subst(c08opsSource(p.Sub), p)
 	}
 	return c08subst(c08Sources[p.Tpl], p)
 }
@@ -1022,6 +1027,24 @@ func runC08(args []string) error {
 			}
 		}
 	}
+	// operand templates: every statement form executed concurrently by N goroutines with distinct operands.
+	// Each sub-template runs under the race detector and in the plain build; GOMAXPROCS / yield cover the grid cyclically.
+	opsRounds := 1
+	if thorough {
+		opsRounds = 12
+	}
+	for round := 0; round < opsRounds; round++ {
+		for sub := range c08Ops {
+			c := sub + round + int(*seed)
+			p := mkParams(tplOps, goroutines[c%len(goroutines)])
+			p.Sub, p.SubName = sub, c08Ops[sub].Name
+			if p.N > 8 && p.K > 12 {
+				p.K = 12
+			}
+			addJob(p, gmps[(c/2)%len(gmps)], yields[c%len(yields)], true)
+			addJob(p, gmps[r.intn(len(gmps))], yields[r.intn(len(yields))], false)
+		}
+	}
 	// neighbourhood stream of the known finding: one select statement shared by all workers
 	for k := 0; k < regionJobs; k++ {
 		p := mkParams(tplSelPriv, goroutines[(k+int(*seed))%len(goroutines)])
@@ -1155,6 +1178,9 @@ func runC08(args []string) error {
 		sm.ImplComparisons++
 		sm.RefComparisons++
 		key := c08TplName[j.P.Tpl]
+		if j.P.Tpl == tplOps {
+			key = "ops/" + j.P.SubName
+		}
 		sm.count("tpl:" + key)
 		sm.count(fmt.Sprintf("goroutines:%d", j.P.N))
 		sm.count(fmt.Sprintf("gomaxprocs:%d", j.GMP))
